@@ -291,8 +291,8 @@ def run(ck):
             return it.call_function(VFunc(rbs), [s, api.basis_str(it), tens(it, "states", ("B", "nv"))], {}, None)
 
         paths = [p for p in paths_of(prog, thr, sticky=True, max_paths=30) if p.outcome == "return"]
-        rot = [p for p in paths if any(c[1].startswith("sites.size") and c[2] for c in p.conds)]
-        flat = [p for p in paths if any(c[1].startswith("sites.size") and not c[2] for c in p.conds)]
+        rot = [p for p in paths if some_selected(p, "_rotate_basis_state") is True]
+        flat = [p for p in paths if some_selected(p, "_rotate_basis_state") is False]
         ck.check(bool(rot) and bool(flat), "C04.R3", "rotated and unrotated branches", rbs.site(), "expected a branch with rotated sites and one without")
         for p in flat:
             Ut, v = p.interp.concrete_items(p.value)
